@@ -69,6 +69,11 @@ pub fn judge_against_reference(
         ));
     } else if run.outcome == "ok" && run.bytes != reference.bytes {
         problems.push("C05: multi-thread bytes differ from single-thread bytes".into());
+        // the MD5 field of STREAMINFO is bytes 26..42 of the stream
+        let md5 = |b: &Option<Vec<u8>>| b.as_ref().and_then(|v| v.get(26..42).map(<[u8]>::to_vec));
+        if md5(&run.bytes) != md5(&reference.bytes) {
+            problems.push("C03: the MD5 in STREAMINFO of the multi-thread run differs from the single-thread run of the same input".into());
+        }
     }
 }
 
@@ -237,6 +242,7 @@ pub fn cmd_sched_random(a: &Args) {
     let maxw = a.num("maxw", 3) as usize;
     let maxn = a.num("maxn", 5) as usize;
     let faults = !a.flag("nofaults");
+    let starve_every = a.num("starve-every", 0) as usize;
     let out = a.get("out", "/verif/.work/par/random.ndjson");
     if let Some(d) = std::path::Path::new(&out).parent() {
         std::fs::create_dir_all(d).unwrap();
@@ -260,6 +266,13 @@ pub fn cmd_sched_random(a: &Args) {
                 }
             }
         }
+        // hasher-starving runs: more blocks than the process queue has slots, no faults
+        let starve = starve_every > 0 && r % starve_every == starve_every - 1;
+        let (workers, nblocks, fail_at, bad) = if starve {
+            (rng.gen_range(1..=2usize), rng.gen_range(17..=21usize), None, vec![])
+        } else {
+            (workers, nblocks, fail_at, bad)
+        };
         let case = ParCase {
             id: format!("rnd-{seed}-{r}"),
             ch: rng.gen_range(1..=2),
@@ -275,7 +288,9 @@ pub fn cmd_sched_random(a: &Args) {
             hint: rng.gen_bool(0.5),
             seed: seed * 7919 + r as u64,
         };
-        let policy = if r % 2 == 0 {
+        let policy = if starve {
+            Policy::starve("h", seed * 31 + r as u64)
+        } else if r % 2 == 0 {
             Policy::random(seed * 31 + r as u64)
         } else {
             Policy::pct(seed * 31 + r as u64, 3, 40 + 25 * nblocks)
